@@ -202,9 +202,12 @@ def gen_point(rng):
 
 
 def gen_point3d(rng):
-    kind = rng.choice(["any", "mod", "straddle", "straddle"])
+    kind = rng.choice(["any", "mod", "fit", "fit", "straddle", "straddle"])
     if kind == "any":
         m, v = mat_rv(rng), [rv(rng), rv(rng), rv(rng)]
+    elif kind == "fit":      # products that fit: exactness of the rounding is what is judged
+        m = [mod(rng) for _ in range(9)]
+        v = [rng.randint(-2 ** 26, 2 ** 26), rng.randint(-2 ** 26, 2 ** 26), rng.choice([ONE, 1, rng.randint(-2 ** 26, 2 ** 26)])]
     elif kind == "mod":
         m, v = mat_any(rng), [rv(rng), rv(rng), rng.choice([ONE, rv(rng)])]
     else:
@@ -535,14 +538,14 @@ def mc(chk, tier):
             ("MatrixMC.tla", "MatrixMC_neg_perterm.cfg", True), ("MatrixMC.tla", "MatrixMC_neg_boundsceil.cfg", True),
             ("MatrixMC.tla", "MatrixMC_neg_recipwrap.cfg", True), ("MatrixMC.tla", "MatrixMC_neg_nofalse.cfg", True)]
     if tier == "thorough":
-        runs.append(("MatrixMC.tla", "MatrixMC_wide.cfg", False))
+        runs = [("MatrixMC.tla", "MatrixMC_wide.cfg", False), ("BigIntMC.tla", "BigIntMC_wide.cfg", False)] + runs
     from concurrent.futures import ThreadPoolExecutor
 
     def one(x):
         mod, cfg, neg = x
         return x, vf.tlc_mc(os.path.join(base, mod), cfg=os.path.join(base, cfg), workers=4, timeout=1500, expect_violation=neg)
 
-    with ThreadPoolExecutor(max_workers=2) as ex:      # 2 x 4 TLC workers
+    with ThreadPoolExecutor(max_workers=3) as ex:      # 3 x 4 TLC workers
         results = list(ex.map(one, runs))
     for (mod, cfg, neg), r in results:
         chk.add_tlc(r, ("negative config (must be rejected) " if neg else "model check ") + cfg)
@@ -585,7 +588,8 @@ def run(prop, args):
     rng = random.Random(args.seed * 1000003 + 11)
     quick = args.tier == "quick"
     wd = vf.workdir("matrix-" + prop)
-    cfg = os.path.join(vf.SPEC, "trace", "MatrixTrace.cfg")
+    # CONSTANT Deviations = ids of the open records of KNOWN_FINDINGS.jsonl for C11
+    cfg = vf.cfg_with_deviations(os.path.join(vf.SPEC, "trace", "MatrixTrace.cfg"), prop)
 
     if args.replay:
         exe, px = vf.build_driver("drv_matrix", "plain")
@@ -612,7 +616,7 @@ def run(prop, args):
         "multiply 1 1 1 0 0 0 0 0 0 32768 0 0 32768 0 0 32768 0 0 0",                # per-term rounding
         "bounds 65536 0 2146762753 0 65536 0 0 0 65536 0 0 10 10",                   # ceil overflow
         "from_f %s" % " ".join(dh(x) for x in [1.0, 0, 32767.5, 0, 1, 0, 0, 0, 1]),  # (32767, 32768) refused
-        "scale 0 1 %s %s 1 2" % (" ".join(map(str, ID9)), " ".join(map(str, ID9))),   # reciprocal wraps
+        "scale 0 1 %s %s 1 2" % (" ".join(map(str, ID9)), " ".join(map(str, ID9))),   # reciprocal not representable
         "translate 0 1 %s %s -2147483648 5" % (" ".join(map(str, ID9)), " ".join(map(str, ID9))),
         "invert 305419896 591751048 878082202 267242408 517782168 768321926 286331152 554766608 823202064 0",   # singular, TRUE
     ]
